@@ -397,16 +397,24 @@ def _np_transform(c, t, skip, g, x, pg, st, eps):
         suw = su + c["wd"] * x
         guw = gu + c["wd"] * x
     w = (1.0 - c["beta1"]) if c["mavg"] else 1.0
+    b1 = abs(c["beta1"])
+    # magnitudes of the terms entering the last additions (cancellation there is float32 noise, not a deviation)
+    sc_mom = b1 * _mx(mom) + abs(w) * (_mx(su) + abs(c["wd"]) * _mx(x))
+    sc_dmom = b1 * _mx(dmom) + abs(w) * (_mx(gu) + abs(c["wd"]) * _mx(x))
     mom = c["beta1"] * mom + w * suw
     dmom = c["beta1"] * dmom + w * guw
     if t >= c["start"]:
-        m_, u_ = mom, suw
+        m_, u_, sc_m, sc_u = mom, suw, sc_mom, _mx(su) + abs(c["wd"]) * _mx(x)
     else:
-        m_, u_ = dmom, guw
+        m_, u_, sc_m, sc_u = dmom, guw, sc_dmom, _mx(gu) + abs(c["wd"]) * _mx(x)
     out = (w * u_ + c["beta1"] * m_) if c["nesterov"] else m_
+    sc_out = (abs(w) * sc_u + b1 * sc_m) if c["nesterov"] else sc_m
     if c["wd"] != 0 and c["dwd"]:
         out = out + (1.0 if c["dlr"] else lr) * c["wd"] * x
-    return -(lr if c["dlr"] else 1.0) * out, (diag, dmom, mom)
+        sc_out += abs((1.0 if c["dlr"] else lr) * c["wd"]) * _mx(x)
+    mm = lr if c["dlr"] else 1.0
+    _np_transform.scales = {"upd": abs(mm) * sc_out, "mom": sc_mom, "dmom": sc_dmom}
+    return -mm * out, (diag, dmom, mom)
 
 
 def _np_root(c, S, p):
@@ -426,8 +434,8 @@ def _mx(a):
     return float(np.max(np.abs(a))) if a.size else 0.0
 
 
-def _dev(u, ref):
-    """max |u - ref| / max |ref| (inf when non-finite)"""
+def _dev(u, ref, scale=0.0):
+    """max |u - ref| / max(max |ref|, scale) (inf when non-finite); `scale` = magnitude of the terms whose sum `ref` is"""
     import numpy as np
     u = np.asarray(u, np.float64).reshape(-1)
     ref = np.asarray(ref, np.float64).reshape(-1)
@@ -437,7 +445,7 @@ def _dev(u, ref):
         return 0.0
     if not (np.isfinite(u).all() and np.isfinite(ref).all()):
         return float("inf")
-    m = _mx(ref)
+    m = max(_mx(ref), float(scale or 0.0))
     d = _mx(u - ref)
     return d / m if m > 0 else (0.0 if d <= 1e-37 else float("inf"))
 
@@ -574,6 +582,7 @@ def _run_task(c):
             st0 = (np.asarray(v0["diag"], np.float64) if np.asarray(v0["diag"]).size else np.zeros(tuple(shp)),
                    np.asarray(v0["dmom"], np.float64), np.asarray(v0["mom"], np.float64))
             ru, (rdiag, rdmom, rmom) = _np_transform(c, t, skip, g, x, pg, st0, eps)
+            sc = dict(_np_transform.scales)
             tol = _upd_tol(amp)
             finite_state = all(np.isfinite(np.asarray(a_, np.float64)).all() for a_ in [*Pused, *st0])
             if not finite_state or not math.isfinite(tol) or not np.isfinite(ru).all():
@@ -581,18 +590,19 @@ def _run_task(c):
             else:
                 if tol > 1e-3:
                     stats["ill_conditioned_updates"] += 1
-                dv = _dev(u, ru)
+                dv = _dev(u, ru, sc["upd"])
                 stats["worst_upd"] = max(stats["worst_upd"], dv / tol if math.isfinite(dv) else 9e9)
                 if not dv <= tol:
                     fails.append({"what": f"{where}: update deviates {dv:.3e} (> {tol:.2e}) from the documented pipeline applied to the "
                                           f"stored preconditioners ({'previous refresh' if sharded else 'after this step'}) and momenta; "
                                           f"lr {_lr_at(c, t):.6g} beta1 {c['beta1']} nesterov {c['nesterov']} mavg {c['mavg']} wd {c['wd']} "
                                           f"dwd {c['dwd']} dlr {c['dlr']} start {c['start']}", "leaf": n, "t": t})
-                for nm, a_impl, a_ref, tl in (("momentum", v1["mom"], rmom, tol), ("diagonal_momentum", v1["dmom"], rdmom, TOL_STATE),
-                                              ("diagonal_statistics", v1["diag"], rdiag, TOL_STATE)):
+                for nm, a_impl, a_ref, tl, sc_ in (("momentum", v1["mom"], rmom, tol, sc["mom"]),
+                                                   ("diagonal_momentum", v1["dmom"], rdmom, TOL_STATE, sc["dmom"]),
+                                                   ("diagonal_statistics", v1["diag"], rdiag, TOL_STATE, 0.0)):
                     if nm == "diagonal_statistics" and not np.asarray(v1["diag"]).size:
                         continue
-                    dv2 = _dev(a_impl, a_ref)
+                    dv2 = _dev(a_impl, a_ref, sc_)
                     if not dv2 <= tl:
                         fails.append({"what": f"{where}: new {nm} deviates {dv2:.3e} from the documented recurrence", "leaf": n, "t": t})
                 if not skip and nst and t >= c["start"] and _mx(g) > 0:
@@ -618,13 +628,14 @@ def _run_task(c):
                 Pe = Pprev if sharded else e2e["P"]
                 pge, ampe = _np_precond(c, shp, Pe, g)
                 rue, e2e["st"] = _np_transform(c, t, skip, g, x, pge, e2e["st"], eps)
+                sce = _np_transform.scales["upd"]
                 tole = 1e-3 * e2e["kappa"] ** (1.0 / p) * max(1.0, ampe / 30.0)
                 if not (np.isfinite(rue).all() and math.isfinite(tole)) or tole > 0.05:
                     stats["e2e_inconclusive"] += 1
                     if not np.isfinite(rue).all():
                         e2e["ok"] = False
                 else:
-                    dv = _dev(u, rue)
+                    dv = _dev(u, rue, sce)
                     stats["e2e"] += 1
                     stats["worst_e2e"] = max(stats["worst_e2e"], dv / tole if math.isfinite(dv) else 9e9)
                     if not dv <= tole:
@@ -649,6 +660,7 @@ def _run_task(c):
             rec["dmom"] = [float(z) for z in v1["dmom"].reshape(-1)]
             rec["mom"] = [float(z) for z in v1["mom"].reshape(-1)]
             rec["tol"] = tol if math.isfinite(tol) and finite_state else None
+            rec["sc"] = {k_: (float(v_) if math.isfinite(v_) else 0.0) for k_, v_ in sc.items()}
             if c["grad"]["kind"] == "dyadic" and not skip and nst:
                 reqs.append({"leaf": n, "t": t, "kind": "stats", "req": {
                     "op": "stats", "shape": shp, "block": c["block"], "merge_block": c["merge_block"], "best_effort": c["best_effort"],
@@ -793,7 +805,7 @@ def compare(ctx, o, replies):
                 ctx.dist("update.inconclusive_nonfinite_or_unbounded_amplification")
                 continue
             nm = f"update.{which}[TOL]"
-            dv = _dev(rec["upd"], mu)
+            dv = _dev(rec["upd"], mu, rec["sc"]["upd"])
             ok = dv <= tol
             ctx.corr(nm, ok)
             if not ok:
@@ -802,7 +814,7 @@ def compare(ctx, o, replies):
                 if fld == "diag" and not rec["diag"]:
                     continue
                 nm = f"state.{fld}.{which}[TOL]"
-                dv = _dev(rec[fld], _f64s(r[fld]))
+                dv = _dev(rec[fld], _f64s(r[fld]), rec["sc"].get(fld, 0.0))
                 ok = dv <= tl
                 ctx.corr(nm, ok)
                 if not ok:
